@@ -178,14 +178,14 @@ Proof.
 Qed.
 
 (** "a later authenticator is consulted only if every earlier one found no
-    credentials or allows fallback": every authenticator strictly before the
-    last consulted one lets pass *)
+    credentials or allows fallback": every authenticator before the last
+    consulted one lets pass ([n] = number of authenticators consulted) *)
 Theorem later_only_if_all_earlier_pass ca n r :
   execute ca = (n, r) ->
-  forall i, i < n -> forall j, j < i ->
+  forall j, S j < n ->
   exists b, nth_error ca j = Some b /\ lets_pass b.
 Proof.
-  intros H i Hi j Hj. apply execute_iff_spec in H.
+  intros H j Hj. apply execute_iff_spec in H.
   assert (Hpre : exists pre rest, ca = pre ++ rest /\ Forall lets_pass pre /\ n = S (length pre)).
   { inversion H; subst; try lia; eauto. }
   destruct Hpre as (pre & rest & -> & P & ->).
@@ -248,92 +248,375 @@ Proof.
   intros Hne H. apply execute_iff_spec in H. inversion H; subst. congruence.
 Qed.
 
+(** ** "tried in the configured order": the calls are a prefix of the chain *)
+
+Lemma exec_log_prefix ca : forall len idx log,
+  idx + length ca = len ->
+  exec_log len idx ca log = rev log ++ firstn (fst (exec_plain None ca)) ca.
+Proof.
+  induction ca as [|a rest IH]; intros len idx log Hlen; simpl.
+  - rewrite app_nil_r. reflexivity.
+  - simpl in Hlen. destruct (c_out a) as [s|e]; simpl.
+    + reflexivity.
+    + assert (Hlt : Nat.ltb idx len = true) by (apply Nat.ltb_lt; lia).
+      rewrite Hlt, andb_true_r.
+      destruct (is_argument e || c_fb a).
+      * rewrite (IH len (S idx) (a :: log)) by lia. simpl.
+        (* the count does not depend on the loop variable *)
+        assert (Hc : forall l1 l2, fst (exec_plain l1 rest) = fst (exec_plain l2 rest)).
+        { clear. induction rest as [|b r IHr]; intros l1 l2; simpl; [reflexivity|].
+          destruct (c_out b); [reflexivity|]. destruct (is_argument e || c_fb b); [|reflexivity].
+          reflexivity. }
+        specialize (Hc (Some e) None).
+        destruct (exec_plain (Some e) rest) as [n r]. destruct (exec_plain None rest) as [n' r'].
+        simpl in *. subst n'. rewrite <- app_assoc. reflexivity.
+      * reflexivity.
+Qed.
+
+(** the authenticators whose Execute is called are, in call order, the first
+    [n] of the configured list, [n] being the number [execute] reports *)
+Theorem calls_are_prefix ca : calls ca = firstn (fst (execute ca)) ca.
+Proof.
+  unfold calls. rewrite (exec_log_prefix ca (length ca) 0 []) by reflexivity.
+  rewrite execute_plain. reflexivity.
+Qed.
+
 (** ** Type level: which requests are classified "no credentials" *)
 
-(** credentials of the authenticator's kind are present in the request —
-    defined on the request alone, independently of [classify]:
-    basic_auth: an Authorization header with the Basic scheme;
-    jwt: a bearer token in one of the sources that is a parseable JWS;
-    oauth2_introspection: a bearer token in one of the sources;
-    generic: a session value in one of the sources;
-    anonymous / unauthorized: they do not look at the request *)
-Definition presented (t : atype) (q : request) : bool :=
+(** the kind of credentials an authenticator type works with; anonymous and
+    unauthorized do not look at the request *)
+Inductive cred_kind :=
+| CBasic                          (* user-id and password in an Authorization header with the Basic scheme *)
+| CBearer (src : bsource)         (* a bearer token in one of the token sources *)
+| CBearerJws (src : bsource)      (* a bearer token in one of the token sources that has the form of a JWS *)
+| CSession.                       (* a session value in the cookie or the header *)
+
+Definition kind_of (t : atype) : option cred_kind :=
   match t with
-  | TAnonymous _ | TUnauthorized => true
-  | TBasic _ _ => match q_auth q with AHBasic _ => true | _ => false end
-  | TJwt _ =>
-      match hdr_bearer q, q_query q, body_param q with
-      | Some t, _, _ | None, Some t, _ | None, None, Some t =>
-          match t_jwt t with JWS _ => true | NotJWS => false end
-      | None, None, None => false
+  | TAnonymous _ | TUnauthorized => None
+  | TBasic _ _ => Some CBasic
+  | TJwt src _ _ _ => Some (CBearerJws src)
+  | TIntro src _ _ _ => Some (CBearer src)
+  | TGeneric _ _ => Some CSession
+  end.
+
+Definition has_jws_form (t : token) : bool :=
+  match t_jwt t with NotJWS => false | JWSNoClaims | JWS _ _ => true end.
+
+(** the token the request carries for a source list: the sources are looked at
+    in their order, the first one that has a token counts *)
+Definition carried (src : bsource) (q : request) : option token :=
+  match src with
+  | SrcDefault =>
+      match q_auth q, q_query q, q_body q with
+      | AHBearer t, _, _ => Some t
+      | _, Some t, _ => Some t
+      | _, None, BodyTok t => Some t
+      | _, None, _ => None
       end
-  | TIntro _ =>
-      match hdr_bearer q, q_query q, body_param q with
-      | None, None, None => false
-      | _, _, _ => true
-      end
-  | TGeneric _ _ =>
-      match q_cookie q, q_xsess q with
-      | None, None => false
-      | _, _ => true
+  | SrcCustom =>
+      match q_xtok q, q_query q with
+      | Some t, _ => Some t
+      | None, o => o
       end
   end.
 
-Theorem classify_sound t q :
-  classify t q = Failed ENoCreds <-> presented t q = false.
+(** credentials of the kind are present in the request — defined on the request
+    alone, independently of [classify] *)
+Definition presented (k : cred_kind) (q : request) : bool :=
+  match k with
+  | CBasic => match q_auth q with AHBasic _ => true | _ => false end
+  | CBearer src => match carried src q with Some _ => true | None => false end
+  | CBearerJws src => match carried src q with Some t => has_jws_form t | None => false end
+  | CSession => match q_cookie q, q_xsess q with None, None => false | _, _ => true end
+  end.
+
+Lemma bearer_token_carried src q : bearer_token src q = carried src q.
 Proof.
-  destruct t as [sub| |u p|rem|rem|rem ls]; simpl.
-  - split; discriminate.
-  - split; discriminate.
+  destruct src; unfold bearer_token, carried, hdr_bearer, body_param; simpl.
+  - destruct (q_auth q); destruct (q_query q); destruct (q_body q); reflexivity.
+  - destruct (q_xtok q); destruct (q_query q); reflexivity.
+Qed.
+
+Lemma remote_failure_not_nocreds s e : remote_failure s = Some e -> e <> ENoCreds.
+Proof. destruct s; simpl; intro H; inversion H; discriminate. Qed.
+
+Lemma reached_not_nocreds h rem q e : reached h rem q = Some e -> e <> ENoCreds.
+Proof. unfold reached. destruct h; simpl; try discriminate. apply remote_failure_not_nocreds. Qed.
+
+Lemma discover_not_nocreds d i e : discover d i = Some e -> e <> ENoCreds.
+Proof.
+  destruct d as [|s| |]; simpl; try discriminate.
+  - apply remote_failure_not_nocreds.
+  - intro H; inversion H; discriminate.
+  - destruct i as [[|]|]; intro H; inversion H; discriminate.
+Qed.
+
+Lemma jwt_answer_not_nocreds strict v : jwt_answer strict v <> Failed ENoCreds.
+Proof. destruct v; simpl; try discriminate; destruct strict; discriminate. Qed.
+
+Lemma intro_answer_not_nocreds strict i : intro_answer_of strict i <> Failed ENoCreds.
+Proof. destruct i; simpl; try discriminate; destruct strict; discriminate. Qed.
+
+(** per type with a credential kind: the answer is an argument-kind ("no
+    credentials") error exactly when no credentials of the kind are presented,
+    whatever the endpoints and the cache do *)
+Theorem classify_sound t k h q :
+  kind_of t = Some k ->
+  (classify t h q = Failed ENoCreds <-> presented k q = false).
+Proof.
+  destruct t as [sub| |u p|src d rem strict|src d rem strict|rem ls]; simpl; intro Hk; inversion Hk; subst; clear Hk; simpl.
   - unfold classify_basic. destruct (q_auth q) as [| |[|n|u' p']|t]; simpl;
       try (split; congruence).
     destruct (String.eqb u' u && String.eqb p' p); split; congruence.
-  - unfold classify_jwt, bearer_token. simpl.
-    destruct (hdr_bearer q) as [t|]; [|destruct (q_query q) as [t|]; [|destruct (body_param q) as [t|]]];
-      try (split; congruence);
-      destruct (t_jwt t) as [|v]; try (split; congruence);
-      destruct rem; simpl; try (split; congruence);
-      destruct v; split; congruence.
-  - unfold classify_intro, bearer_token. simpl.
-    destruct (hdr_bearer q) as [t|]; [|destruct (q_query q) as [t|]; [|destruct (body_param q) as [t|]]];
-      try (split; congruence);
-      destruct rem; simpl; try (split; congruence);
-      destruct (t_intro t); split; congruence.
+  - unfold classify_jwt. rewrite bearer_token_carried.
+    destruct (carried src q) as [t|]; [|split; congruence].
+    unfold has_jws_form. destruct (t_jwt t) as [| |known v]; try (split; congruence).
+    destruct (discover d (Some known)) as [e|] eqn:Ed.
+    { pose proof (discover_not_nocreds _ _ _ Ed). split; congruence. }
+    destruct (reached h rem q) as [e|] eqn:Er.
+    { pose proof (reached_not_nocreds _ _ _ _ Er). split; congruence. }
+    pose proof (jwt_answer_not_nocreds strict v). split; congruence.
+  - unfold classify_intro. rewrite bearer_token_carried.
+    destruct (carried src q) as [t|]; [|split; congruence].
+    destruct (discover d (issuer_known t)) as [e|] eqn:Ed.
+    { pose proof (discover_not_nocreds _ _ _ Ed). split; congruence. }
+    destruct (reached h rem q) as [e|] eqn:Er.
+    { pose proof (reached_not_nocreds _ _ _ _ Er). split; congruence. }
+    pose proof (intro_answer_not_nocreds strict (t_intro t)). split; congruence.
   - unfold classify_generic, session_value. simpl.
     destruct (q_cookie q) as [s|]; [|destruct (q_xsess q) as [s|]];
       try (split; congruence);
-      destruct rem; try (split; congruence);
-      destruct s; try (split; congruence); destruct ls; split; congruence.
+      (destruct h; try (split; congruence));
+      (match goal with |- context [reached ?h rem q] => destruct (reached h rem q) as [e|] eqn:Er end;
+       [pose proof (reached_not_nocreds _ _ _ _ Er); split; congruence|]);
+      destruct s; try (split; congruence);
+      match goal with |- context [if ?c then _ else _] => destruct c end; split; congruence.
 Qed.
 
-(** anonymous never fails, unauthorized always rejects, neither falls back *)
-Theorem classify_fixed q fb sub :
-  classify (TAnonymous sub) q = Accepted sub /\
-  classify TUnauthorized q = Failed ERejected /\
-  fallback_allowed {| a_type := TAnonymous sub; a_fb := fb |} = false /\
-  fallback_allowed {| a_type := TUnauthorized; a_fb := fb |} = false.
-Proof. repeat split. Qed.
+(** anonymous never fails, unauthorized always rejects: neither ever reports "no credentials" *)
+Theorem classify_kindless t h q :
+  kind_of t = None -> classify t h q <> Failed ENoCreds.
+Proof. destruct t; simpl; intro Hk; try discriminate. Qed.
+
+(** ** The fallback flag: "explicitly allows fallback on error" *)
+
+(** the step opts in: its rule-level setting says so, or it has none and the
+    prototype says so *)
+Inductive opts_in (a : authn) : Prop :=
+| optin_rule : a_over_fb a = Some true -> opts_in a
+| optin_proto : a_over_fb a = None -> a_proto_fb a = true -> opts_in a.
+
+(** what IsFallbackOnErrorAllowed() answers is never more than what is configured ... *)
+Theorem fallback_only_if_opted_in a : fallback_allowed a = true -> opts_in a.
+Proof.
+  unfold fallback_allowed, configured_fb.
+  destruct (a_type a); try discriminate;
+    destruct (a_over_fb a) as [[|]|] eqn:Eo; intro H; try discriminate;
+    try (apply optin_rule; assumption); apply optin_proto; assumption.
+Qed.
+
+(** ... and for the types that can be configured it is exactly that *)
+Theorem fallback_iff_opted_in a :
+  kind_of (a_type a) <> None -> (fallback_allowed a = true <-> opts_in a).
+Proof.
+  intro Hk. split; [apply fallback_only_if_opted_in|].
+  unfold fallback_allowed, configured_fb. intro H.
+  destruct (a_type a); simpl in Hk; try congruence;
+    destruct H as [H | H1 H2]; rewrite ?H, ?H1; auto.
+Qed.
+
+(** ** Both levels together, on chains of real authenticator types *)
+
+Lemma to_chain_app q pre : forall l hits,
+  exists hs', to_chain q (pre ++ l) hits = to_chain q pre hits ++ to_chain q l hs'.
+Proof.
+  induction pre as [|x r IH]; intros l hits; simpl.
+  - exists hits. reflexivity.
+  - destruct hits as [|h hs].
+    + destruct (IH l []) as (hs' & ->). exists hs'. reflexivity.
+    + destruct (IH l hs) as (hs' & ->). exists hs'. reflexivity.
+Qed.
+
+Lemma to_chain_length q ca : forall hits, length (to_chain q ca hits) = length ca.
+Proof.
+  induction ca as [|a r IH]; intro hits; simpl; [reflexivity|].
+  destruct hits; simpl; rewrite IH; reflexivity.
+Qed.
+
+Lemma to_chain_In q ca : forall hits b,
+  In b (to_chain q ca hits) ->
+  exists a h, In a ca /\ b = {| c_out := classify (a_type a) h q; c_fb := fallback_allowed a |}.
+Proof.
+  induction ca as [|a r IH]; intros hits b Hb; simpl in Hb; [contradiction|].
+  destruct hits as [|h hs]; simpl in Hb; destruct Hb as [<- | Hb].
+  - exists a, LMiss. split; [left; reflexivity | reflexivity].
+  - destruct (IH [] b Hb) as (a' & h' & Hin & E). exists a', h'. split; [right; assumption | assumption].
+  - exists a, h. split; [left; reflexivity | reflexivity].
+  - destruct (IH hs b Hb) as (a' & h' & Hin & E). exists a', h'. split; [right; assumption | assumption].
+Qed.
+
+Lemma to_chain_nth q ca : forall hits j b,
+  nth_error (to_chain q ca hits) j = Some b ->
+  exists a h, nth_error ca j = Some a /\ b = {| c_out := classify (a_type a) h q; c_fb := fallback_allowed a |}.
+Proof.
+  induction ca as [|a r IH]; intros hits j b Hb; simpl in Hb.
+  - destruct j; discriminate.
+  - destruct hits as [|h hs]; destruct j as [|j]; simpl in Hb.
+    + inversion Hb. exists a, LMiss. split; reflexivity.
+    + destruct (IH [] j b Hb) as (a' & h' & Hn & E). exists a', h'. split; assumption.
+    + inversion Hb. exists a, h. split; reflexivity.
+    + destruct (IH hs j b Hb) as (a' & h' & Hn & E). exists a', h'. split; assumption.
+Qed.
+
+(** the authenticator never accepts the request, whatever the cache holds *)
+Definition never_accepts (q : request) (a : authn) : Prop :=
+  forall h s, classify (a_type a) h q <> Accepted s.
+
+(** an authenticator that on this request never accepts and never reports "no
+    credentials", and is not opted in, ends the authentication with an error,
+    whatever follows (e.g. anonymous) *)
+Lemma typed_blocks q hits pre a post :
+  Forall (never_accepts q) pre ->
+  (forall h, exists e, classify (a_type a) h q = Failed e /\ e <> ENoCreds) ->
+  fallback_allowed a = false ->
+  exists n e, authenticate (pre ++ a :: post) hits q = (n, RError e) /\ n <= S (length pre).
+Proof.
+  intros Hpre Hf Hfb. unfold authenticate.
+  destruct (to_chain_app q pre (a :: post) hits) as (hs' & ->).
+  simpl. destruct hs' as [|h hs''].
+  - destruct (Hf LMiss) as (e & Hc & Hne).
+    destruct (rejected_without_optin_fails (to_chain q pre hits)
+                {| c_out := classify (a_type a) LMiss q; c_fb := fallback_allowed a |}
+                (to_chain q post []) e) as (n & e' & H & Hn).
+    + apply Forall_forall. intros x Hx. apply to_chain_In in Hx as (b & h' & Hb & ->).
+      rewrite Forall_forall in Hpre. intros [s Hs]. exact (Hpre b Hb h' s Hs).
+    + repeat split; assumption.
+    + exists n, e'. split; [exact H | rewrite to_chain_length in Hn; exact Hn].
+  - destruct (Hf h) as (e & Hc & Hne).
+    destruct (rejected_without_optin_fails (to_chain q pre hits)
+                {| c_out := classify (a_type a) h q; c_fb := fallback_allowed a |}
+                (to_chain q post hs'') e) as (n & e' & H & Hn).
+    + apply Forall_forall. intros x Hx. apply to_chain_In in Hx as (b & h' & Hb & ->).
+      rewrite Forall_forall in Hpre. intros [s Hs]. exact (Hpre b Hb h' s Hs).
+    + repeat split; assumption.
+    + exists n, e'. split; [exact H | rewrite to_chain_length in Hn; exact Hn].
+Qed.
+
+(** the request carries credentials of the authenticator's kind (unauthorized,
+    which has no kind, treats every request as rejected) *)
+Definition presents (q : request) (a : authn) : Prop :=
+  match kind_of (a_type a) with Some k => presented k q = true | None => True end.
 
 (** the property on real chains: an authenticator that finds credentials of its
-    kind, does not accept them and is not configured for fallback ends the
-    authentication with an error, whatever follows (e.g. anonymous) *)
-Theorem typed_rejected_blocks q pre a post :
-  Forall (fun b => forall s, classify (a_type b) q <> Accepted s) pre ->
-  presented (a_type a) q = true ->
-  (forall s, classify (a_type a) q <> Accepted s) ->
-  fallback_allowed a = false ->
-  exists n e, authenticate (pre ++ a :: post) q = (n, RError e) /\ n <= S (length pre).
+    kind, does not accept them and is not opted in ends the authentication with
+    an error, whatever follows *)
+Theorem typed_rejected_blocks q hits pre a post :
+  Forall (never_accepts q) pre ->
+  presents q a -> never_accepts q a -> ~ opts_in a ->
+  exists n e, authenticate (pre ++ a :: post) hits q = (n, RError e) /\ n <= S (length pre).
 Proof.
-  intros Hpre Hp Hna Hfb. unfold authenticate. rewrite map_app. simpl.
-  destruct (classify (a_type a) q) as [s|e] eqn:Hc; [exfalso; exact (Hna s eq_refl)|].
-  assert (Hb : blocks (to_chain q a) e).
-  { unfold blocks, to_chain; simpl. repeat split; try assumption.
-    intros ->. apply classify_sound in Hc. congruence. }
-  destruct (rejected_without_optin_fails (map (to_chain q) pre) (to_chain q a) (map (to_chain q) post) e) as (n & e' & H & Hn).
-  - apply Forall_forall. intros x Hx. apply in_map_iff in Hx as (b & <- & Hb').
-    rewrite Forall_forall in Hpre. intros [s Hs]. exact (Hpre b Hb' s Hs).
-  - exact Hb.
-  - exists n, e'. split; [exact H | rewrite map_length in Hn; exact Hn].
+  intros Hpre Hp Hna Hno. apply typed_blocks; try assumption.
+  - intro h. destruct (classify (a_type a) h q) as [s|e] eqn:Hc; [exfalso; exact (Hna h s Hc)|].
+    exists e. split; [reflexivity|]. intros ->. unfold presents in Hp.
+    destruct (kind_of (a_type a)) as [k|] eqn:Hk.
+    + apply (classify_sound _ _ h q Hk) in Hc. congruence.
+    + exact (classify_kindless _ h q Hk Hc).
+  - destruct (fallback_allowed a) eqn:Hfb; [|reflexivity].
+    exfalso. apply Hno. apply fallback_only_if_opted_in. exact Hfb.
+Qed.
+
+(** a later authenticator of a real chain is consulted only if every earlier one
+    found no credentials of its kind in the request or is opted in *)
+Theorem typed_later_only_if q hits ca n r :
+  authenticate ca hits q = (n, r) ->
+  forall j, S j < n ->
+  exists a, nth_error ca j = Some a /\
+    ((exists k, kind_of (a_type a) = Some k /\ presented k q = false) \/ opts_in a).
+Proof.
+  intros H j Hj. unfold authenticate in H.
+  destruct (later_only_if_all_earlier_pass _ _ _ H j Hj) as (b & Hb & Hpass).
+  apply to_chain_nth in Hb as (a & h & Ha & ->). exists a. split; [exact Ha|].
+  destruct Hpass as [Hn | [Hfb _]].
+  - left. unfold no_credentials in Hn. simpl in Hn.
+    destruct (kind_of (a_type a)) as [k|] eqn:Hk.
+    + exists k. split; [reflexivity|]. apply (classify_sound _ _ h q Hk). exact Hn.
+    + exfalso. exact (classify_kindless _ h q Hk Hn).
+  - right. simpl in Hfb. apply fallback_only_if_opted_in. exact Hfb.
+Qed.
+
+(** the subject of a real chain is the one of the first authenticator that
+    accepts, and the authenticators consulted are the configured ones in order *)
+Theorem typed_first_success q hits ca n s :
+  authenticate ca hits q = (n, RSubject s) ->
+  exists j a h, n = S j /\ nth_error ca j = Some a /\ classify (a_type a) h q = Accepted s.
+Proof.
+  intro H. unfold authenticate in H.
+  destruct (first_success_wins _ _ _ H) as (pre & b & post & E & -> & Hacc & _ & _).
+  assert (Hb : nth_error (to_chain q ca hits) (length pre) = Some b).
+  { rewrite E. rewrite nth_error_app2 by lia. rewrite Nat.sub_diag. reflexivity. }
+  apply to_chain_nth in Hb as (a & h & Ha & ->).
+  exists (length pre), a, h. repeat split; assumption.
+Qed.
+
+(** ** The rejections the statement names *)
+
+(** the endpoint of the instance is found and answers (or its answer is cached) *)
+Definition endpoint_answers (d : disc) (rem : remote) (i : option bool) (q : request) : Prop :=
+  discover d i = None /\ state_of rem q = SUp.
+
+Inductive named_rejection (q : request) : atype -> Prop :=
+| rej_wrong_password u p u' p' :
+    q_auth q = AHBasic (BPair u' p') -> String.eqb u' u && String.eqb p' p = false ->
+    named_rejection q (TBasic u p)
+| rej_bad_signature src d rem strict t known :
+    carried src q = Some t -> t_jwt t = JWS known JBadSig -> endpoint_answers d rem (Some known) q ->
+    named_rejection q (TJwt src d rem strict)
+| rej_failed_assertion_jwt src d rem strict t known :
+    carried src q = Some t -> t_jwt t = JWS known JAssertFail -> endpoint_answers d rem (Some known) q ->
+    named_rejection q (TJwt src d rem strict)
+| rej_audience_or_scope_jwt src d rem t known sub :
+    carried src q = Some t -> t_jwt t = JWS known (JNarrow sub) -> endpoint_answers d rem (Some known) q ->
+    named_rejection q (TJwt src d rem true)
+| rej_inactive_token src d rem strict t :
+    carried src q = Some t -> t_intro t = IInactive -> endpoint_answers d rem (issuer_known t) q ->
+    named_rejection q (TIntro src d rem strict)
+| rej_failed_assertion_intro src d rem strict t :
+    carried src q = Some t -> t_intro t = IAssertFail -> endpoint_answers d rem (issuer_known t) q ->
+    named_rejection q (TIntro src d rem strict)
+| rej_audience_or_scope_intro src d rem t sub :
+    carried src q = Some t -> t_intro t = INarrow sub -> endpoint_answers d rem (issuer_known t) q ->
+    named_rejection q (TIntro src d rem true).
+
+Lemma named_rejection_rejects q t h : named_rejection q t -> classify t h q = Failed ERejected.
+Proof.
+  intro H. destruct H; simpl.
+  - unfold classify_basic. rewrite H, H0. reflexivity.
+  - unfold classify_jwt. rewrite bearer_token_carried, H, H0. destruct H1 as [-> Hs].
+    unfold reached. rewrite Hs. destruct h; reflexivity.
+  - unfold classify_jwt. rewrite bearer_token_carried, H, H0. destruct H1 as [-> Hs].
+    unfold reached. rewrite Hs. destruct h; reflexivity.
+  - unfold classify_jwt. rewrite bearer_token_carried, H, H0. destruct H1 as [-> Hs].
+    unfold reached. rewrite Hs. destruct h; reflexivity.
+  - unfold classify_intro. rewrite bearer_token_carried, H. destruct H1 as [-> Hs].
+    unfold reached. rewrite Hs, H0. destruct h; reflexivity.
+  - unfold classify_intro. rewrite bearer_token_carried, H. destruct H1 as [-> Hs].
+    unfold reached. rewrite Hs, H0. destruct h; reflexivity.
+  - unfold classify_intro. rewrite bearer_token_carried, H. destruct H1 as [-> Hs].
+    unfold reached. rewrite Hs, H0. destruct h; reflexivity.
+Qed.
+
+(** wrong password, bad signature, inactive token, failed assertion: without
+    opt-in the authentication fails even if a later authenticator would succeed *)
+Theorem named_rejections_block q hits pre a post :
+  Forall (never_accepts q) pre ->
+  named_rejection q (a_type a) -> ~ opts_in a ->
+  exists n e, authenticate (pre ++ a :: post) hits q = (n, RError e) /\ n <= S (length pre).
+Proof.
+  intros Hpre Hrej Hno. apply typed_blocks; try assumption.
+  - intro h. exists ERejected. split; [apply named_rejection_rejects; assumption | discriminate].
+  - destruct (fallback_allowed a) eqn:Hfb; [|reflexivity].
+    exfalso. apply Hno. apply fallback_only_if_opted_in. exact Hfb.
 Qed.
 
 (** ** The executable form of the specification used by the evaluator *)
